@@ -37,6 +37,9 @@ Shape(sn) ==
     \* numbers outside the domain of HTTP statuses (a located error where a status is wanted, a number elsewhere)
     [] sn = "litnum0" -> LitNum("0") [] sn = "litnum42" -> LitNum("42") [] sn = "litnum99" -> LitNum("99") [] sn = "litnum600" -> LitNum("600")
     [] sn = "litnum100" -> LitNum("100") [] sn = "litnum599" -> LitNum("599")
+    \* ... and beyond the widths of the integer types a status passes through (16, 32, 64 bits)
+    [] sn = "litnum65535" -> LitNum("65535") [] sn = "litnum65536" -> LitNum("65536")
+    [] sn = "litnum2p32" -> LitNum("4294967296") [] sn = "litnum2p64m1" -> LitNum("18446744073709551615")
     [] sn = "rec" -> Rec("x", Obj(<<Prop("k", Arr(Var("x")))>>))
 
 Pos(pn, h) ==
@@ -306,6 +309,18 @@ RecInst(name) ==
                                   IF m = "g" THEN <<FRec>>
                                   ELSE <<Use("g"), Body(Obj(<<Prop("a", App(Var("f"), <<Prim("num")>>)), Prop("b", App(Var("f"), <<Prim("str")>>))>>))>>]]
     [] name = "ref-decl-twice" -> one(<<LetRef("@o", Obj(<<Prop("k", Arr(Var("@o")))>>)), Body(Obj(<<Prop("a", Var("@o")), Prop("b", Var("@o"))>>))>>)
+    \* a reference / a recursive declaration that instantiates a rec, used again from inside function applications and rec
+    \* scopes after it has been evaluated: evaluated once, its rec instantiated once
+    [] name = "ref-rec-in-fn-twice" -> one(<<LetRef("@tree", Rec("t", Obj(<<Prop("kids", Arr(Var("t")))>>))),
+                                             Decl("wrap", <<"x">>, Obj(<<Prop("data", Var("x")), Prop("tree", Var("@tree"))>>)),
+                                             Body(Obj(<<Prop("a", App(Var("wrap"), <<Prim("str")>>)), Prop("b", App(Var("wrap"), <<Prim("num")>>))>>))>>)
+    [] name = "rec-decl-via-fn-in-fn-twice" ->
+         one(<<Decl("list", <<"x">>, Rec("l", Obj(<<Prop("head", Var("x")), Prop("tail", Arr(Var("l")))>>))),
+               Let("node", Obj(<<Prop("name", Prim("str")), Prop("kids", App(Var("list"), <<Var("node")>>))>>)),
+               Decl("page", <<"y">>, Obj(<<Prop("items", Arr(Var("y"))), Prop("root", Var("node"))>>)),
+               Body(Obj(<<Prop("a", App(Var("page"), <<Prim("str")>>)), Prop("b", App(Var("page"), <<Prim("num")>>))>>))>>)
+    [] name = "ref-rec-in-rec" -> one(<<LetRef("@tree", Rec("t", Obj(<<Prop("kids", Arr(Var("t")))>>))),
+                                        Body(Obj(<<Prop("a", Var("@tree")), Prop("b", Rec("z", Obj(<<Prop("t", Var("@tree")), Prop("n", Arr(Var("z")))>>)))>>))>>)
     [] name = "rel-self" -> one(<<Let("r", Rel(Uri(<<Seg("self")>>), <<Xfer("get", Var("r"))>>)), Res(Var("r"))>>)
     [] name = "rel-rec" -> one(<<Res(Rec("x", Rel(Uri(<<Seg("self")>>), <<Xfer("get", Var("x"))>>)))>>)
     [] name = "rel-domain" -> one(<<Let("r", Rel(Uri(<<Seg("self")>>), <<XferD("put", Var("r"), Op("::", <<Var("r"), C0>>))>>)), Res(Var("r"))>>)
@@ -313,7 +328,8 @@ RecInst(name) ==
                                    Res(Var("a")), Res(Var("b"))>>)
     [] name = "mutual" -> one(<<Let("a", Obj(<<Prop("b", Var("b"))>>)), Let("b", Obj(<<Prop("a", Var("a"))>>)), Body(Obj(<<Prop("x", Var("a")), Prop("y", Var("b"))>>))>>)
 RecInstNames == {"nested-fn-two-args", "nested-fn-twice-two-args", "fn-once", "fn-twice", "fn-same-arg-twice", "fn-thrice", "top-twice", "nested-fn", "rec-in-rec", "decl-and-rec", "fn-of-rec",
-                 "same-binder-name", "imported-fn", "same-file-name-decl", "same-file-name-rec", "rec-then-cycle", "rec-then-cycle-2", "rec-then-fn-cycle", "ref-decl-twice", "mutual", "rel-self", "rel-rec", "rel-domain", "rel-mutual"}
+                 "same-binder-name", "imported-fn", "same-file-name-decl", "same-file-name-rec", "rec-then-cycle", "rec-then-cycle-2", "rec-then-fn-cycle", "ref-decl-twice", "mutual", "rel-self", "rel-rec", "rel-domain", "rel-mutual",
+                 "ref-rec-in-fn-twice", "rec-decl-via-fn-in-fn-twice", "ref-rec-in-rec"}
 
 \* ---- Ranges, Uris, Xfers: the parts of a resource ---------------------------------------------------
 CntOf(st, md, body) ==
@@ -379,7 +395,11 @@ AnnShape(sn) ==
     [] sn = "a-line" -> Ann(OA, <<AnnE("description", "line d", "s", "line"), AnnE("title", "line t", "s", "line")>>)
     [] sn = "a-rec"  -> Ann(Rec("x", Obj(<<Prop("k", Arr(Var("x")))>>)), <<Desc("rec d"), Title("rec t")>>)
     [] sn = "a-plain" -> OA
-AnnShapeNames == {"a-obj", "a-num", "a-str", "a-props", "a-arr", "a-sum", "a-line", "a-rec", "a-plain"}
+    \* the mark on a property against a `required` annotation on the property's type: the mark wins, the type decides only without one
+    [] sn = "a-reqmix" -> LET T == Ann(Prim("num"), <<AnnE("required", "true", "b", "inline")>>)
+                              F == Ann(Prim("str"), <<AnnE("required", "false", "b", "inline")>>)
+                          IN Obj(<<PropOpt("a", T), PropReq("b", F), Prop("c", T), Prop("d", F), Un("?", Prop("e", T)), Un("!", Prop("g", F))>>)
+AnnShapeNames == {"a-obj", "a-num", "a-str", "a-props", "a-arr", "a-sum", "a-line", "a-rec", "a-plain", "a-reqmix"}
 
 \* the value supplied through an indirection, optionally annotated again at the use site
 AnnHole(ind, sh, use) ==
@@ -434,7 +454,8 @@ AllPositions == {"body", "range", "domain", "headers", "media", "status", "relur
                  "arritem", "join", "any", "sum", "rangeop", "unary", "urivar", "apparg", "recbody", "refdecl", "concat"}
 AllShapes == {"num", "str", "uriprim", "obj", "obj0", "arr", "prop", "propreq", "unopt", "join", "any", "sum", "sumobj", "sumuri", "sumrel", "cnt", "cnt0",
               "cntfull", "ranges", "urit", "urivar", "rel", "xfer", "litnum", "litstr", "litstatus", "rec",
-              "litnum0", "litnum42", "litnum99", "litnum600", "litnum100", "litnum599"}
+              "litnum0", "litnum42", "litnum99", "litnum600", "litnum100", "litnum599",
+              "litnum65535", "litnum65536", "litnum2p32", "litnum2p64m1"}
 AllIndirections == {"direct", "let", "reflet", "idfn", "implet", "impfn"}
 QuickIndirections == {"direct", "let", "idfn", "fnlocal", "fnimp"}
 EveryIndirection == AllIndirections \cup {"fnlocal", "fnimp"}
